@@ -408,6 +408,12 @@ def w_words(items):
         verdict = d.out[d.run(word)]
         counts[verdict] += 1
         p = realise(unit, element, word, rules)
+        if len(word) % 2 == 1 and unit != "@metadata":
+            # the parent carries EVERY attribute its rule declares (valid values), not only the required ones: membership of the
+            # child sequence is a matter of the children section
+            for a_, spec_ in (rules[unit][0] or {}).items():
+                if a_ not in p.attributes:
+                    p.add_attribute(a_, spec_[1] if len(spec_) > 1 else "v1")
         if len(word) % 3 == 2 and unit != "@metadata":
             # where the parent hangs is not what its rule speaks about: below foreign content of a metadata element, two levels down
             from metapype.model.node import Node as _N
